@@ -151,6 +151,7 @@ func (e *Engine) newInterp() *interpreter {
 		intercept: e.interceptFn,
 		intrinsic: map[*ssa.Function]externalFn{},
 		noIntr:    map[*ssa.Function]bool{},
+		built:     map[*ssa.Package]bool{},
 		cfg:       e.Cfg,
 	}
 	if vp := e.Cfg.VerifPkg; vp != nil {
@@ -217,13 +218,22 @@ func (i *interpreter) resetPerPath() {
 }
 
 func (i *interpreter) buildFunc(fn *ssa.Function) {
-	if fn.Pkg != nil {
-		fn.Pkg.Build()
+	pkg := fn.Pkg
+	if pkg == nil {
+		if o := fn.Origin(); o != nil {
+			pkg = o.Pkg
+		}
+	}
+	if pkg == nil {
+		for p := fn.Parent(); p != nil && pkg == nil; p = p.Parent() {
+			pkg = p.Pkg
+		}
+	}
+	if pkg == nil || i.built[pkg] {
 		return
 	}
-	if o := fn.Origin(); o != nil && o.Pkg != nil {
-		o.Pkg.Build()
-	}
+	pkg.Build()
+	i.built[pkg] = true
 }
 
 func (i *interpreter) noteFunc(fn *ssa.Function) {
@@ -369,7 +379,7 @@ func (e *Engine) runPath(i *interpreter, solver *Solver, prefix []Decision) {
 				outcome, detail = "engine-error", p.Error()+"\n"+string(debug.Stack())
 			case runtime.Error:
 				outcome, detail = "panic", "runtime error: "+p.Error()
-				if e.Cfg.Trace {
+				if e.Cfg.Trace || os.Getenv("GOSYM_STACK") != "" {
 					detail += "\n" + string(debug.Stack())
 				}
 			default:
